@@ -5,7 +5,14 @@ import "os"
 // GetLinkInfo returns an identifier representing the node a hardlink is pointing
 // to. If the file is not hard linked then 0 will be returned.
 func GetLinkInfo(fi os.FileInfo) (uint64, bool) {
-	return getLinkInfo(fi)
+	key, ok := getLinkInfo(fi)
+	return key.ino, ok
+}
+
+// inodeKey identifies an inode: inode numbers are only unique per file
+// system, and a copied tree may span several (mount points below the source).
+type inodeKey struct {
+	dev, ino uint64
 }
 
 // getLinkSource returns a path for the given name and
@@ -13,7 +20,7 @@ func GetLinkInfo(fi os.FileInfo) (uint64, bool) {
 // map. If the given file name is not in the map and
 // has other links, it is added to the inode map
 // to be a source for other link locations.
-func getLinkSource(name string, fi os.FileInfo, inodes map[uint64]string) (string, error) {
+func getLinkSource(name string, fi os.FileInfo, inodes map[inodeKey]string) (string, error) {
 	inode, isHardlink := getLinkInfo(fi)
 	if !isHardlink {
 		return "", nil
